@@ -53,9 +53,9 @@ Notation two := (add z1 z1).
 Definition erf_c : KT := @ERF@.
 Definition dfn (f : mathfn) (x : KT) : KT :=
   match f with
-  | FSqrt => inv (mul two (fn FSqrt x))
+  | FSqrt => div z1 (mul two (fn FSqrt x))
   | FExp => fn FExp x
-  | FLn => inv x
+  | FLn => div z1 x
   | FCos => opp (fn FSin x)
   | FSin => fn FCos x
   | FTan => div two (add (fn FCos (mul two x)) z1)
@@ -63,9 +63,9 @@ Definition dfn (f : mathfn) (x : KT) : KT :=
   | FSinh => fn FCosh x
   | FTanh => mul (div (mul two (fn FCosh x)) (add (fn FCosh (mul two x)) z1))
                  (div (mul two (fn FCosh x)) (add (fn FCosh (mul two x)) z1))
-  | FAcos => opp (inv (fn FSqrt (sub z1 (mul x x))))
-  | FAsin => inv (fn FSqrt (sub z1 (mul x x)))
-  | FAtan => inv (add z1 (mul x x))
+  | FAcos => opp (div z1 (fn FSqrt (sub z1 (mul x x))))
+  | FAsin => div z1 (fn FSqrt (sub z1 (mul x x)))
+  | FAtan => div z1 (add z1 (mul x x))
   | FErf => mul erf_c (fn FExp (opp (mul x x)))
   end.
 Hypothesis Dx_fn : forall j f x, Dx j (fn f x) = mul (Dx j x) (dfn f x).
@@ -206,8 +206,21 @@ Ltac fin := first [ reflexivity | ring | rewrite ?div_def; ring
 '''
 
 TACTICS_CLOSE = r'''
+(* conj / re / im of something (ring-)equal to zero *)
+Ltac cplx_zero :=
+  repeat match goal with
+         | |- context [conj ?X] =>
+             lazymatch X with z0 => fail | _ => idtac end;
+             replace (conj X) with z0 by (transitivity (conj z0); [ symmetry; apply conj_z0 | f_equal; symmetry; arg_eq2 ])
+         | |- context [re ?X] =>
+             lazymatch X with z0 => fail | _ => idtac end;
+             replace (re X) with z0 by (transitivity (re z0); [ symmetry; apply re_z0 | f_equal; symmetry; arg_eq2 ])
+         | |- context [im ?X] =>
+             lazymatch X with z0 => fail | _ => idtac end;
+             replace (im X) with z0 by (transitivity (im z0); [ symmetry; apply im_z0 | f_equal; symmetry; arg_eq2 ])
+         end.
 Ltac c03_close :=
-  norm_goal; dx_push; cbv [dfn sign_ erf_c]; norm_goal; cond_zero; rewrite ?cond_same;
+  norm_goal; dx_push; cbv [dfn sign_ erf_c]; norm_goal; cplx_zero; cond_zero; rewrite ?cond_same;
   first [ fin
         | repeat unify1; fin
         | rewrite ?div_def; repeat first [ unify1 | unify_b ]; fin
